@@ -195,15 +195,11 @@ func body(n int, bounded bool, custom ...func() []hostile) func() {
 				vrt.Failf("probe-connect-failed", "a fresh client cannot connect after [%s]: %v", names, err)
 				return
 			}
-			if v, err := c.Probe(1).Echo(21); err == nil && v == probe.EchoResult(21) {
-				okRoot = true
-			}
+			okRoot = fullService(c.Probe(1), 21)
 			if childNamed {
 				return // the hostile client named the second object for removal: it may be gone
 			}
-			if v, err := c.Probe(childID).Echo(22); err == nil && v == probe.EchoResult(22) {
-				okChild = true
-			}
+			okChild = fullService(c.Probe(childID), 22)
 		})
 		gw := vrt.GoWorker("good-client", func() {
 			if v, err := good.Probe(1).Echo(23); err == nil && v == probe.EchoResult(23) {
@@ -231,7 +227,7 @@ func body(n int, bounded bool, custom ...func() []hostile) func() {
 		switch lws := vrt.LockWaiters(); {
 		case stalled != "" && !served:
 			vrt.Failf("=slow-consumer-stall", "thread %s is blocked writing to the hostile peer, which never reads (finite send buffer), after [%s]; fresh client served: %v, established client served: %v", stalled, names, pw.Done() && okRoot && okChild, gw.Done() && okGood)
-		case len(lws) > 0:
+		case len(lws) > 0 && !served:
 			vrt.Failf("=deadlock/"+set, "thread %s blocked on %s at quiescence after hostile frames [%s] disconnect=%v (%s buffers); fresh client served: %v", lws[0].Thread, lws[0].Label, names, disconnect, model, pw.Done())
 		case !pw.Done():
 			vrt.Failf("=fresh-client-not-served/"+set, "a fresh client is not served after hostile frames [%s] disconnect=%v (%s buffers): blocked on %s", names, disconnect, model, pw.BlockedOn())
@@ -246,8 +242,41 @@ func body(n int, bounded bool, custom ...func() []hostile) func() {
 		case w.Root.Terminated > 0:
 			vrt.Failf("=object-terminated/"+set, "the service object was terminated by [%s]", names)
 		}
+		if served && len(vrt.LockWaiters()) > 0 {
+			// everybody is served although a goroutine is stuck on a mutex for
+			// good (a leak, e.g. the closer of a connection that is gone): the
+			// statement speaks of the service to other clients - recorded, not judged
+			vrt.Flag("goroutine-stuck-on-a-mutex-while-everybody-is-served")
+		}
 		vrt.Observe("%s|%s|disc=%v|root=%v child=%v good=%v", model, names, disconnect, okRoot, okChild, okGood)
 	}
+}
+
+// fullService: what "the object keeps answering" means for a probe client - a
+// call, a subscription (the object's registration tables), a property write
+// and read (its property tables and the emission to subscribers), the end of
+// the subscription. A lock that a hostile sequence left held, or a goroutine
+// stuck while holding one, shows as one of these not returning.
+func fullService(p probe.ProbeProxy, arg int32) bool {
+	if v, err := p.Echo(arg); err != nil || v != probe.EchoResult(arg) {
+		return false
+	}
+	cancel, ch, err := p.SubscribeTick()
+	if err != nil {
+		return false
+	}
+	vrt.GoNamed("probe-drain", func() {
+		for range ch {
+		}
+	})
+	if err := p.SetLevel(arg); err != nil {
+		return false
+	}
+	if v, err := p.GetLevel(); err != nil || v != arg {
+		return false
+	}
+	cancel()
+	return true
 }
 
 // vanishing: requests that make the server act on the hostile client's own
@@ -336,15 +365,11 @@ func vanish(n int) func() {
 				vrt.Failf("probe-connect-failed", "a fresh client cannot connect after [%s]: %v", names, err)
 				return
 			}
-			if v, err := c.Probe(1).Echo(21); err == nil && v == probe.EchoResult(21) {
-				okRoot = true
-			}
+			okRoot = fullService(c.Probe(1), 21)
 			if childNamed {
 				return
 			}
-			if v, err := c.Probe(childID).Echo(22); err == nil && v == probe.EchoResult(22) {
-				okChild = true
-			}
+			okChild = fullService(c.Probe(childID), 22)
 		})
 		gw := vrt.GoWorker("good-client", func() {
 			if v, err := good.Probe(1).Echo(23); err == nil && v == probe.EchoResult(23) {
@@ -353,8 +378,9 @@ func vanish(n int) func() {
 		})
 		vrt.Quiesce()
 		set := "{" + multiset(seq) + "}"
+		served := pw.Done() && gw.Done() && okRoot && (okChild || childNamed) && okGood
 		switch lws := vrt.LockWaiters(); {
-		case len(lws) > 0:
+		case len(lws) > 0 && !served:
 			vrt.Failf("=deadlock/"+set, "thread %s blocked on %s at quiescence after the hostile client sent [%s] and vanished; fresh client served: %v", lws[0].Thread, lws[0].Label, names, pw.Done())
 		case !pw.Done():
 			vrt.Failf("=fresh-client-not-served/"+set, "a fresh client is not served after the hostile client sent [%s] and vanished: blocked on %s", names, pw.BlockedOn())
@@ -368,6 +394,9 @@ func vanish(n int) func() {
 			vrt.Failf("=established-client-refused/"+set, "an established client gets an error after [%s]", names)
 		case w.Root.Terminated > 0:
 			vrt.Failf("=object-terminated/"+set, "the service object was terminated by [%s]", names)
+		}
+		if served && len(vrt.LockWaiters()) > 0 {
+			vrt.Flag("goroutine-stuck-on-a-mutex-while-everybody-is-served")
 		}
 		vrt.Observe("vanish|%s|root=%v child=%v good=%v", names, okRoot, okChild, okGood)
 	}
@@ -476,12 +505,8 @@ func cuts() {
 		if err != nil {
 			return
 		}
-		if v, err := c.Probe(1).Echo(21); err == nil && v == probe.EchoResult(21) {
-			okRoot = true
-		}
-		if v, err := c.Probe(childID).Echo(22); err == nil && v == probe.EchoResult(22) {
-			okChild = true
-		}
+		okRoot = fullService(c.Probe(1), 21)
+		okChild = fullService(c.Probe(childID), 22)
 	})
 	gw := vrt.GoWorker("good-client", func() {
 		if v, err := good.Probe(1).Echo(23); err == nil && v == probe.EchoResult(23) {
@@ -491,7 +516,7 @@ func cuts() {
 	vrt.Quiesce()
 	what := fmt.Sprintf("%s cut after %d of %d bytes, close=%v", f.name, cut, buf2.Len(), closeAfter)
 	switch lws := vrt.LockWaiters(); {
-	case len(lws) > 0:
+	case len(lws) > 0 && !(pw.Done() && gw.Done() && okRoot && okChild && okGood):
 		vrt.Failf("deadlock/cut-frame/"+f.name, "thread %s blocked on %s after %s", lws[0].Thread, lws[0].Label, what)
 	case !pw.Done() || !gw.Done():
 		vrt.Failf("client-not-served/cut-frame/"+f.name, "a client is not served after %s", what)
